@@ -135,6 +135,58 @@ def is_sanitiser(ctx, fn, flow):
     return True, "every return is the normalised path, guarded by a containment test whose failing branch cannot reach it", set(fn.params)
 
 
+def checks_raw_argument(ctx, fn):
+    """The path the sanitiser tests is normalise(join(root, P)) with P its second parameter *as given* - only then does a
+    bare call `sanitiser(root, x)` (result unused) say anything about the path join(root, x) built elsewhere."""
+    if len(fn.params) < 2:
+        return False
+    root_p, rel_p = fn.params[0], fn.params[1]
+    for n in own_nodes(fn.node):
+        if isinstance(n, ast.Call) and norm(n.func) == "os.path.join" and len(n.args) == 2:
+            a0, a1 = n.args
+            if isinstance(a1, ast.Name) and a1.id == rel_p:
+                # first component: the root parameter or a local normalisation of it
+                ok0 = isinstance(a0, ast.Name) and (a0.id == root_p or any(w == "value" and root_p in {x.id for x in ast.walk(p_) if isinstance(x, ast.Name)}
+                                                                         for w, p_ in ctx.res.bindings(fn).get(a0.id, [])))
+                if ok0 and not any(isinstance(s, (ast.Assign, ast.AugAssign)) and any(isinstance(t, ast.Name) and t.id == rel_p for t in (s.targets if isinstance(s, ast.Assign) else [s.target]))
+                                   for s in own_nodes(fn.node)):
+                    return True
+    return False
+
+
+def guarded_joins(ctx, reach, sanitisers):
+    """{id(join call): sanitiser qual} for `os.path.join(R, X)` expressions that are dominated by a call sanitiser(R, X) with the
+    very same arguments (same text, no re-definition in between): the check raised unless join(R, X) is contained."""
+    out = {}
+    strict = {q: f for q, f in sanitisers.items() if checks_raw_argument(ctx, f)}
+    if not strict:
+        return out
+    for f in reach:
+        g = None
+        guards = [n for n in own_nodes(f.node) if isinstance(n, ast.Call) and len(n.args) >= 2 and any(t.qual in strict for t in C.targets_of(ctx, f, n))]
+        if not guards:
+            continue
+        joins = [n for n in own_nodes(f.node) if isinstance(n, ast.Call) and norm(n.func) == "os.path.join" and len(n.args) == 2]
+        for j in joins:
+            for gd in guards:
+                if norm(gd.args[0]) != norm(j.args[0]) or norm(gd.args[1]) != norm(j.args[1]):
+                    continue
+                g = g or C.cfg_of(f)
+                gn, jn = C.stmt_node(ctx, f, gd), C.stmt_node(ctx, f, j)
+                if gn is None or jn is None or not g.dominates(gn, jn) or gn is jn:
+                    continue
+                names = {x.id for a in gd.args[:2] for x in ast.walk(a) if isinstance(x, ast.Name)}
+                # re-definitions on a path from the guard to the join that does not run the guard again
+                after = set()
+                for s2, _ in gn.succ:
+                    after |= g.reachable(s2, avoiding={gn})
+                on_path = {n_ for n_ in after if n_ is not gn and (n_ is jn or jn in g.reachable(n_, avoiding={gn}))}
+                if any(C._assigns(n_, nm) for n_ in on_path if n_ is not jn for nm in names):
+                    continue
+                out[id(j)] = [t.qual for t in C.targets_of(ctx, f, gd) if t.qual in strict][0]
+    return out
+
+
 def metafile_leaves(t):
     return any(x[0] == "ext" and x[1] in ("pyben.load", "pyben.loads") for x in walk_terms(t))
 
@@ -186,7 +238,17 @@ def run(ctx):
         else:
             rejected[f.qual] = why
     stops = C.funcs(ctx, ["torrentfile.rebuild:Assembler.__init__", "torrentfile.commands:rebuild"])
-    flow = Flow(ctx.prog, ctx.res, stop_funcs=stops, opaque_funcs=list(sanitisers.values()))
+    gj = guarded_joins(ctx, reach, sanitisers)
+
+    def hook(f, name, what, payload, fl, env, depth):
+        if what == "value" and isinstance(payload, ast.Call) and id(payload) in gj:
+            return frozenset([("pkgcall", gj[id(payload)], ())])
+        return None
+    flow = Flow(ctx.prog, ctx.res, stop_funcs=stops, opaque_funcs=list(sanitisers.values()), hook=hook if gj else None)
+    for jid, q in gj.items():
+        pass
+    if gj:
+        ctx.holds("C19.0", None, "%d path join(s) are preceded by a call of the containment check with the same arguments (the check raises unless that very join is contained)" % len(gj), "guarded joins")
     effs, precise, full = C.reach_effects(ctx, entries, ("fs-write", "fs-write?"))
     n_sinks = 0
     tainted_sinks = 0
@@ -261,7 +323,7 @@ QUICK_CANARIES = True
 CLAIM = {
     "text": "Decided for all metafiles: every file-system-mutating primitive reachable from rebuild is enumerated and each written path that depends on decoded metafile content is "
             "shown to be the output of a containment sanitiser whose definition is itself verified on the CFG (normalised root and joined path, comparison by commonpath, failing branch raises, "
-            "returns the tested path). An unsanitised flow at any sink, or a weakened sanitiser, is a violation naming the sink.",
+            "returns the tested path). An unsanitised flow at any sink, or a weakened sanitiser, is a violation naming the sink. A bare call of the (CFG-verified, raw-argument) containment check that dominates the join of the very same arguments is accepted as sanitising that join.",
     "note": "Trusted: realpath resolves '..' and symlinks, commonpath compares whole components. Explicit data flow only; the destination argument itself is the user's. "
             "Time-of-check/time-of-use races with concurrently created symlinks are outside the property.",
     "technique": "taint analysis on origin terms with a mandatory, CFG-verified sanitiser; sinks from effect summaries over the call graph",
